@@ -23,7 +23,7 @@ for e in entries:
     json.dump({os.path.join(R,e['file']):mf},open(ov,'w'))
     cmd=[V+'/bin/govc','check','-prop',e['prop'],'-overlay',ov,'-no-evidence']
     if e.get('func'): cmd+=['-func',e['func']]
-    p=subprocess.run(cmd,capture_output=True,text=True,env=dict(os.environ,GOFLAGS='-mod=mod',GOPROXY='off'))
+    p=subprocess.run(cmd,capture_output=True,text=True,env=dict(os.environ,GOFLAGS='-mod=mod',GOPROXY='off',GOVC_RUN=os.environ.get('GOVC_RUN','_selftest')))
     out=p.stdout
     viol=[l for l in out.splitlines() if l.startswith('obligation ') or l.startswith('vacuity')]
     ok=p.returncode==1 and all(any(x in l for l in viol) for x in e['expect'])
